@@ -567,8 +567,8 @@ func checkC10(r *Result, rng *rand.Rand, thorough bool) {
 		if rng.Intn(10) == 0 && len(body) > 0 {
 			body = body[:rng.Intn(len(body))]
 		}
-		if rng.Intn(25) == 0 {
-			body[rng.Intn(len(body)+1)%max(len(body), 1)] ^= 0xff
+		if rng.Intn(25) == 0 && len(body) > 0 {
+			body[rng.Intn(len(body))] ^= 0xff
 		}
 		ops = append(ops, mkValidateOp("10.0.0.1", false, 5000, fl, body, modes[rng.Intn(len(modes))], nil))
 	}
